@@ -33,6 +33,9 @@ type Prog struct {
 	ModFuncs []*ssa.Function
 
 	LoadErrs []string
+
+	// RenameNotes: functions analysed under their recorded name (see renames.go)
+	RenameNotes []string
 }
 
 type loadOpts struct {
@@ -99,6 +102,7 @@ func loadProg(o loadOpts) (*Prog, error) {
 	if !o.noCG {
 		p.CG = vta.CallGraph(all, cha.CallGraph(prog))
 	}
+	p.RenameNotes = resolveRenames(p)
 	return p, nil
 }
 
@@ -174,10 +178,13 @@ func (p *Prog) Func(rel, name string) *ssa.Function {
 				}
 			}
 		}
-		// fall back to any (maybe promoted)
-		return nil
+		// renamed since the rules were confirmed?
+		return renamedLookup(rel, name)
 	}
-	return sp.Func(name)
+	if f := sp.Func(name); f != nil {
+		return f
+	}
+	return renamedLookup(rel, name)
 }
 
 // NamedType resolves a named type in a module-relative package.
